@@ -310,6 +310,7 @@ def tmplOf (fmt : String) : String :=
   | "%r is disallowed for %r" => "disallow"
   | "Additional items are not allowed (%s %s unexpected)" => "addItems"
   | "%r is not valid under any of the given schemas" => "anyOf"
+  | "False schema does not allow %r" => "false"
   | "%r is valid under each of %s" => "oneOfMore"
   | other => "?" ++ other
 
